@@ -82,6 +82,42 @@ theorem C09_tables_consistent :
 
 example : lookup Norm.compTable (0x41 * 2 ^ 32 + 0x300) = some 0xC0 := by decide +kernel
 
+/-! ## combining classes -/
+
+/-- (1) The crate's canonical combining classes are CPython's on the characters assigned there (merge
+    with the per-character list of classes of characters unassigned in the reference).
+    (2) `CharExt::modified_combining_class` is, for every character with a non-zero class, the three
+    per-character overrides (U+1A60, U+0FC6 → 254, U+0F39 → 127) or else `MODIFIED_COMBINING_CLASS[ccc]`,
+    and it is 0 on every character with class 0 (`expandRanges` lists the characters of a range table
+    with their non-zero value; `classVals` = the classes in use with their modified value).
+    (3) The modification is injective on the classes in use, except for the classes it zeroes, and
+    (4) it zeroes only 84 and 91 (the Telugu length marks, deliberately): so sorting by modified class
+    never ties two marks of different canonical classes — the reorder round identifies exactly the
+    canonically equivalent mark orders (up to those two classes). -/
+theorem C09_mcc_classes :
+    expandRanges Norm.cccRanges = mergeKeys 2000 (expandRanges NormRef.cccRanges) NormRef.newCcc ∧
+    mccExpected classVals (expandRanges Norm.cccRanges) = some (expandRanges Norm.mccRanges) ∧
+    (∀ p ∈ classVals, ∀ q ∈ classVals, p.1 ≠ q.1 → p.2 = q.2 → p.2 = 0) ∧
+    (∀ p ∈ classVals, p.2 = 0 → p.1 = 84 ∨ p.1 = 91) := by
+  refine ⟨?_, mcc_from_ccc_check, ?_, ?_⟩
+  · have h : (expandRanges Norm.cccRanges == mergeKeys 2000 (expandRanges NormRef.cccRanges) NormRef.newCcc) = true := by
+      decide +kernel
+    exact eq_of_beq h
+  · intro p hp q hq hne heq
+    have h := List.all_eq_true.mp (List.all_eq_true.mp classVals_inj_check p hp) q hq
+    simp only [Bool.or_eq_true, beq_iff_eq, bne_iff_ne, ne_eq] at h
+    rcases h with (h | h) | h
+    · exact absurd h hne
+    · exact absurd heq h
+    · exact h
+  · intro p hp h0
+    have h := List.all_eq_true.mp classVals_zero_check p hp
+    simp only [Bool.or_eq_true, bne_iff_ne, ne_eq, beq_iff_eq] at h
+    rcases h with (h | h) | h
+    · exact absurd h0 h
+    · exact Or.inl h
+    · exact Or.inr h
+
 /-! ## Hangul arithmetic (unicode.rs::compose_hangul / decompose_hangul) -/
 
 /- Full-strength statement (FALSE of the current crate, see `known_C09_hangul_tbase`):
